@@ -2,8 +2,8 @@
 # tools/verify_seed.sh <PID> <mutN>   -- confirm a seeded change in a scratch worktree of /repo HEAD:
 #  applies, full suite passes with it, demo fails with it and passes without it.  Writes seeded/<PID>-<mutN>/{patch.diff,demo.rs,meta.json}
 pid=$1; mut=$2
-src=/verif/seeded_incoming/$pid
-id="$pid-$mut"
+src=${3:-/verif/seeded_incoming}/$pid
+id="$pid-$mut${4:-}"
 wt=/tmp/seed_$id
 out=/verif/seeded/$id
 mkdir -p $out
